@@ -48,7 +48,7 @@ func init() {
 	extend("C16", "(R16.6) numbers cross the Lua bridge as float64: no float-to-integer conversion in the bridge package; (R16.7) nothing RunLuaScript calls directly can terminate the process (static call closure including goroutines started by the callee, e.g. LState.SetMx's watchdog calling os.Exit).", extraC16)
 	extend("C17", "(R17.5) scaling-event detection reads the desired-replicas annotation of active ReplicaSets only (a retired ReplicaSet keeps a stale annotation and would turn every sync into a scaling event).", extraC17)
 	extend("C18", "(R18.5) the canary-style BatchRelease reports its teardown done only after the generated canary Deployments' finalizers were released (Delete passed on every success return, NotFound-to-nil conversions included).", extraC18)
-	extend("C19", "(R19.3u) a UID used as a shared-cache key is read from an object that a client Get filled in, not from a locally built stub (whose UID is always empty, i.e. one key for everybody).", extraC19)
+	extend("C19", "(R19.5) no object obtained from a DisableDeepCopy list is written through one of its references (map update, slice element, pointer target), in the listing function, in functions it is passed to, or in callers it is returned to; (R19.3u) a UID used as a shared-cache key is read from an object that a client Get filled in, not from a locally built stub (whose UID is always empty, i.e. one key for everybody).", extraC19)
 }
 
 // ---------------------------------------------------------------- C01
@@ -705,6 +705,15 @@ func extraC18(c *Ctx) {
 func extraC19(c *Ctx) {
 	p := c.Prog
 	c.Rule("R19.3u", "a UID used as a cache key belongs to an object filled in by a client Get", 3)
+	c.Rule("R19.5", "objects listed with DisableDeepCopy are not written through their references (maps, slices, pointers shared with the informer cache)", 1)
+	{
+		writes, lists := SharedCacheWrites(p)
+		c.Extra["no_deep_copy_lists"] = lists
+		for _, w := range writes {
+			c.Ob("R19.5", FuncName(w.Fn)+"#shared-write", w.Instr.Pos(), false, "write through a reference of a shared-cache object", w.What+" ("+w.Via+"): the informer cache is modified in place while other workers read it")
+		}
+		c.Ob("R19.5", "no-deep-copy-lists", 0, lists >= 8, fmt.Sprintf("%d List calls with DisableDeepCopy followed through locals, results and callees (summaries to a fixed point)", lists), ifs(lists < 8, "fewer no-deep-copy lists than the 11 of the pinned tree: the rule no longer sees them"))
+	}
 	for _, fn := range p.RepoFuncs() {
 		if strings.Contains(FuncName(fn), "pkg/util/grace") {
 			continue
